@@ -401,6 +401,11 @@ func GenMatrix(r *rand.Rand, m MatrixCell, pf Profile) *Scenario {
 	for i := 0; i < r.Intn(3); i++ {
 		ops = append(ops, Op{Kind: "write", Cell: r.Intn(5), Style: styleFor(r)}, pace()) // never the switch: it stays on
 	}
+	if len(b.TTL) > 0 {
+		// the TTL value cached in b changes after b's last recomputation:
+		// only b's own expiry can refresh it
+		ops = append(ops, Op{Kind: "write", Cell: b.TTL[0], Style: WInvalidate}, pace())
+	}
 	sc.Writers = [][]Op{ops}
 	inj := &InjSpec{Point: m.Point, Visit: m.Visit, RR: 0}
 	switch m.Action {
